@@ -231,21 +231,16 @@ func parseTrace(text string) []sysLine {
 	return out
 }
 
-// mapTrace maps the observed system calls onto the model's call names (conformance); "?…" marks an unexpected call.
-func mapTrace(lines []sysLine, path string) []string {
+// classifyTrace names every traced system call with the model's call name ("?…" = unexpected call, "" = not part
+// of the commit: the engine's initial Load of the store file, the rmdir retry of os.Remove).
+func classifyTrace(lines []sysLine, path string) []string {
 	tmp := path + ".tmp"
 	dir := filepath.Dir(path)
 	q := func(s string) string { return `"` + s + `"` }
-	var out []string
-	push := func(s string, collapse bool) {
-		if collapse && len(out) > 0 && out[len(out)-1] == s {
-			return
-		}
-		out = append(out, s)
-	}
+	out := make([]string, len(lines))
 	tmpFd, dirFd, loadFd := "", "", ""
 	prevUnlinkFailed := false
-	for _, l := range lines {
+	for i, l := range lines {
 		first := strings.TrimSpace(strings.SplitN(l.args, ",", 2)[0])
 		unlinkFailed := false
 		switch l.name {
@@ -255,62 +250,75 @@ func mapTrace(lines []sysLine, path string) []string {
 				if strings.Contains(l.args, "AT_REMOVEDIR") && prevUnlinkFailed {
 					break
 				}
-				push("removeTmp", false)
+				out[i] = "removeTmp"
 				unlinkFailed = l.ret == "-1"
 			} else {
-				push("?unlink", false)
+				out[i] = "?unlink"
 			}
 		case "openat":
 			switch {
 			case strings.Contains(l.args, q(tmp)):
 				if strings.Contains(l.args, "O_WRONLY") && strings.Contains(l.args, "O_CREAT") && strings.Contains(l.args, "O_EXCL") && !strings.Contains(l.args, "O_TRUNC") {
-					push("createExclTmp", false)
+					out[i] = "createExclTmp"
 				} else {
-					push("?createTmp", false)
+					out[i] = "?createTmp"
 				}
 				tmpFd = l.ret
 			case strings.Contains(l.args, q(path)):
 				loadFd = l.ret // FileStore.Load of the engine start: not part of the commit
 			case strings.Contains(l.args, q(dir)):
-				push("openDir", false)
+				out[i] = "openDir"
 				dirFd = l.ret
 			default:
-				push("?openat", false)
+				out[i] = "?openat"
 			}
 		case "write":
 			if first == tmpFd && tmpFd != "" {
-				push("writeTmp", true)
+				out[i] = "writeTmp"
 			} else {
-				push("?write", false)
+				out[i] = "?write"
 			}
 		case "fsync":
 			if first == tmpFd && tmpFd != "" {
-				push("fsyncTmp", false)
+				out[i] = "fsyncTmp"
 			} else if first == dirFd && dirFd != "" {
-				push("fsyncDir", false)
+				out[i] = "fsyncDir"
 			} else {
-				push("?fsync", false)
+				out[i] = "?fsync"
 			}
 		case "close":
 			if first == loadFd && loadFd != "" {
 				loadFd = ""
 			} else if first == tmpFd && tmpFd != "" {
-				push("closeTmp", false)
+				out[i] = "closeTmp"
 				tmpFd = ""
 			} else if first == dirFd && dirFd != "" {
-				push("closeDir", false)
+				out[i] = "closeDir"
 				dirFd = ""
 			} else {
-				push("?close", false)
+				out[i] = "?close"
 			}
 		case "rename", "renameat", "renameat2":
 			if strings.Contains(l.args, q(tmp)) && strings.Contains(l.args, q(path)) && strings.Index(l.args, q(tmp)) < strings.LastIndex(l.args, q(path)) {
-				push("renameTmpToPath", false)
+				out[i] = "renameTmpToPath"
 			} else {
-				push("?rename", false)
+				out[i] = "?rename"
 			}
 		}
 		prevUnlinkFailed = unlinkFailed
+	}
+	return out
+}
+
+// mapTrace maps the observed system calls onto the model's call names (conformance); "?…" marks an unexpected call;
+// consecutive writes of the temp file are one model call.
+func mapTrace(lines []sysLine, path string) []string {
+	var out []string
+	for _, c := range classifyTrace(lines, path) {
+		if c == "" || (c == "writeTmp" && len(out) > 0 && out[len(out)-1] == c) {
+			continue
+		}
+		out = append(out, c)
 	}
 	return out
 }
@@ -333,6 +341,11 @@ func expectedSyscalls(calls []string) []string {
 }
 
 func runStrace(dir, path, coll string, docHex string, inject string) (trace string, stdout string, killed bool, err error) {
+	return runStraceEnv(dir, path, coll, docHex, inject, nil)
+}
+
+// runStraceEnv: runStrace with extra environment for the writer (CRASHWRITER_PAD, CRASHWRITER_RLIMIT_FSIZE).
+func runStraceEnv(dir, path, coll string, docHex string, inject string, env []string) (trace string, stdout string, killed bool, err error) {
 	tf := filepath.Join(dir, "trace.txt")
 	args := []string{"-f", "-e", straceSet}
 	if inject != "" {
@@ -343,7 +356,7 @@ func runStrace(dir, path, coll string, docHex string, inject string) (trace stri
 	defer cancel()
 	cmd := exec.CommandContext(ctx, "strace", args...)
 	// fewer runtime threads in the writer = fewer ptrace stops (the commit itself runs on the locked main thread)
-	cmd.Env = append(os.Environ(), "GOMAXPROCS=1", "GOGC=off")
+	cmd.Env = append(append(os.Environ(), "GOMAXPROCS=1", "GOGC=off"), env...)
 	var so, se bytes.Buffer
 	cmd.Stdout = &so
 	cmd.Stderr = &se
@@ -659,6 +672,23 @@ func crashCase(r *gen.R, idx int) []run.Case {
 						Viols:      vs,
 					})
 					_ = os.RemoveAll(kdir)
+				}
+				// (vi) two random error injections on this commit (any traced call of the commit, any error of its class)
+				if cands := injCandidates(lines, refPath); len(cands) > 0 {
+					st, _ := os.Stat(refPath)
+					cfg := &injConfig{name: caseID + "/" + strconv.Itoa(c), pre: states[c], stale: stale, coll: colls[c], doc: docs[c], full: docs[c],
+						dumpOld: dumps[c], dumpNew: dumps[c+1], commitNo: "later"}
+					if states[c] == nil {
+						cfg.commitNo = "first"
+					}
+					if st != nil {
+						cfg.newSize = int(st.Size())
+					}
+					cfg.sizeTag = sizeRegime(len(states[c+1]))
+					for x := 0; x < 2; x++ {
+						t := cands[r.N(len(cands))]
+						cases = append(cases, injRun(cfg, filepath.Join(root, fmt.Sprintf("inj%d_%d", c, x)), t))
+					}
 				}
 			}
 			_ = os.RemoveAll(refDir)
@@ -1031,14 +1061,364 @@ func searchCorpus() []run.Case {
 	return cases
 }
 
+// ---------- (vi) real-kernel error injection per system call ----------
+//
+// The writer process is re-run with ONE system call of the commit failing on the real kernel path:
+// `strace -e inject=<syscall>:error=<errno>:when=<n>` (the call is not executed and returns the error;
+// `retval=0` makes a write report 0 bytes written — with any other retval the kernel would not have written what it
+// claims, so genuine short writes come from RLIMIT_FSIZE instead: CRASHWRITER_RLIMIT_FSIZE, no ptrace needed).
+// Monitors (C05):
+//   swallowed-error:<syscall>  Commit reported success although a data-path call (write/fsync/close of the temp
+//                              file, rename) failed or was short;
+//   not-old-or-new             afterwards the store file does not load, or loads as a third state;
+//   acked-but-old              Commit reported success and the old state is loaded;
+//   failed-commit-damaged      Commit reported an error but the file shows the new state although the failing call
+//                              came before the rename, or a following fault-free commit fails / is not persisted.
+// Accepted corner (allowed by old-or-new): a failing open/fsync of the DIRECTORY after the rename returns an error
+// although the new file is in place.
+
+type injConfig struct {
+	name     string
+	pre      []byte // store file before the commit (nil = none: first commit)
+	stale    []byte
+	coll     string
+	doc      bson.D // document on the writer's command line
+	pad      int    // CRASHWRITER_PAD
+	full     bson.D // the document the writer inserts (doc + pad)
+	dumpOld  string
+	dumpNew  string
+	newSize  int
+	sizeTag  string
+	commitNo string // "first" | "later"
+}
+
+type injTarget struct {
+	class       string // model call name of the traced line
+	sys         string // system call name as traced
+	when        int    // index among this thread's path-matched calls of that name
+	spec        string // "error=ENOSPC" | "retval=0" | "fsize=<n>" (RLIMIT_FSIZE, no strace)
+	afterRename bool
+	occurrence  int // 1 = first call of that class
+}
+
+var injSpecs = map[string][]string{
+	"removeTmp":       {"error=EACCES"},
+	"createExclTmp":   {"error=ENOSPC"},
+	"writeTmp":        {"error=ENOSPC", "error=EIO", "retval=0"},
+	"fsyncTmp":        {"error=EIO"},
+	"closeTmp":        {"error=EIO"},
+	"renameTmpToPath": {"error=EIO", "error=EXDEV"},
+	"openDir":         {"error=EMFILE"},
+	"fsyncDir":        {"error=EIO"},
+	"closeDir":        {"error=EIO"},
+}
+
+var injDataPath = map[string]bool{"writeTmp": true, "fsyncTmp": true, "closeTmp": true, "renameTmpToPath": true}
+
+func sysWitnessName(sys string) string {
+	switch {
+	case strings.HasPrefix(sys, "rename"):
+		return "rename"
+	case strings.HasPrefix(sys, "unlink"):
+		return "unlink"
+	}
+	return sys
+}
+
+// injCandidates lists every (traced call of the commit) × (error for its class).
+func injCandidates(lines []sysLine, path string) []injTarget {
+	classes := classifyTrace(lines, path)
+	count := map[string]int{}
+	occ := map[string]int{}
+	renamed := false
+	var out []injTarget
+	for i, l := range lines {
+		count[l.name]++
+		c := classes[i]
+		if c == "" || strings.HasPrefix(c, "?") {
+			continue
+		}
+		occ[c]++
+		for _, sp := range injSpecs[c] {
+			out = append(out, injTarget{class: c, sys: l.name, when: count[l.name], spec: sp, afterRename: renamed, occurrence: occ[c]})
+		}
+		if c == "renameTmpToPath" {
+			renamed = true
+		}
+	}
+	return out
+}
+
+func (cfg *injConfig) env() []string {
+	if cfg.pad > 0 {
+		return []string{"CRASHWRITER_PAD=" + strconv.Itoa(cfg.pad)}
+	}
+	return nil
+}
+
+// runPlain runs the writer without strace (RLIMIT_FSIZE scenarios).
+func runPlain(path, coll, docHex string, env []string) (stdout string, err error) {
+	ctx, cancel := context.WithTimeout(context.Background(), 30*time.Second)
+	defer cancel()
+	cmd := exec.CommandContext(ctx, crashwriterPath(), path, crashDB, coll, docHex)
+	cmd.Env = append(append(os.Environ(), "GOMAXPROCS=1", "GOGC=off"), env...)
+	var so bytes.Buffer
+	cmd.Stdout = &so
+	rerr := cmd.Run()
+	var ee *exec.ExitError
+	if rerr != nil && !errors.As(rerr, &ee) {
+		return so.String(), rerr
+	}
+	return so.String(), nil
+}
+
+// injRun executes one injection scenario in dir and judges it.
+func injRun(cfg *injConfig, dir string, t injTarget) run.Case {
+	path, _ := writeState(dir, cfg.pre, cfg.stale)
+	defer os.RemoveAll(dir)
+	docRaw, _ := bson.Marshal(cfg.doc)
+	docHex := hex.EncodeToString(docRaw)
+	scenario := fmt.Sprintf("%s#%d:%s", t.class, t.occurrence, t.spec)
+	tags := []string{"error_injection", "errinj:" + t.class + ":" + t.spec, "errinj_size:" + cfg.sizeTag, "errinj_commit:" + cfg.commitNo}
+	req := fmt.Sprintf(`{"errinj":%q,"config":%q,"syscall":%q,"when":%d,"stale":%v,"new_size":%d}`, scenario, cfg.name, t.sys, t.when, cfg.stale != nil, cfg.newSize)
+	var stdout string
+	hit := false
+	if strings.HasPrefix(t.spec, "fsize=") {
+		out, err := runPlain(path, cfg.coll, docHex, append(cfg.env(), "CRASHWRITER_RLIMIT_FSIZE="+strings.TrimPrefix(t.spec, "fsize=")))
+		if err != nil || strings.Contains(out, "rlimit-error") {
+			return run.Case{Impl: req + ` => {"run":"failed"}`, Tags: append(tags, "errinj_failed")}
+		}
+		stdout, hit = out, true
+	} else {
+		trace, out, _, err := runStraceEnv(dir, path, cfg.coll, docHex, fmt.Sprintf("%s:%s:when=%d", t.sys, t.spec, t.when), cfg.env())
+		// the writer exits with a non-zero status when the commit fails: strace passes that status on
+		if err != nil && !strings.Contains(trace, "+++ exited with") {
+			return run.Case{Impl: req + ` => {"run":"strace-failed"}`, Tags: append(tags, "errinj_failed")}
+		}
+		stdout, hit = out, strings.Contains(trace, "(INJECTED)")
+	}
+	reported := "died"
+	switch {
+	case strings.Contains(stdout, "committed"):
+		reported = "success"
+	case strings.Contains(stdout, "insert-error"):
+		reported = "error"
+	case strings.Contains(stdout, "open-error"):
+		reported = "open-error"
+	}
+	var vs []run.Violation
+	viol := func(what, witness, detail string) {
+		vs = append(vs, run.Violation{Property: "C05", What: what, Witness: witness, Req: req, Detail: detail})
+	}
+	if !hit {
+		tags = append(tags, "errinj_missed")
+	}
+	if hit && reported == "success" && injDataPath[t.class] {
+		viol(fmt.Sprintf("Commit reported success although the %s of the commit failed (%s on the real kernel path)", t.class, t.spec), "swallowed-error:"+sysWitnessName(t.sys), scenario)
+	}
+	d, cl := loadDump(path)
+	loaded := "third"
+	switch {
+	case cl != "ok":
+		loaded = cl
+		viol("after a failing system call inside the commit the store file does not load", "not-old-or-new", scenario+" reported="+reported+" load="+cl)
+	case d == cfg.dumpNew:
+		loaded = "new"
+	case d == cfg.dumpOld:
+		loaded = "old"
+	default:
+		viol("after a failing system call inside the commit the store file loads as neither the old nor the new state", "not-old-or-new", scenario+" reported="+reported)
+	}
+	if reported == "success" && loaded == "old" {
+		viol("Commit reported success but the old state is loaded", "acked-but-old", scenario)
+	}
+	rerun := "skipped"
+	if reported == "error" || reported == "open-error" {
+		if loaded == "new" && !t.afterRename {
+			viol("Commit reported an error (failing call before the rename) but the store file shows the new state", "failed-commit-damaged", scenario)
+		}
+		if loaded == "old" {
+			// a following fault-free commit on whatever was left behind (temp file!) must succeed and be persisted
+			rerun = insertInProcess(path, cfg.coll, cfg.full)
+			if rerun != "ok" {
+				viol("a fault-free commit after a failed commit fails", "failed-commit-damaged", scenario+" rerun="+rerun)
+			} else if d2, cl2 := loadDump(path); cl2 != "ok" || d2 != cfg.dumpNew {
+				viol("a fault-free commit after a failed commit is not persisted", "failed-commit-damaged", scenario+" load="+cl2)
+			}
+		}
+	}
+	tags = append(tags, "errinj_outcome:"+t.class+":"+reported+"/"+loaded)
+	return run.Case{
+		Impl:       fmt.Sprintf(`%s => {"hit":%v,"reported":%q,"loaded":%q,"rerun":%q}`, req, hit, reported, loaded, rerun),
+		Nontrivial: hit,
+		Tags:       tags,
+		Viols:      vs,
+	}
+}
+
+func sizeRegime(n int) string {
+	switch {
+	case n < 4096:
+		return "lt4k"
+	case n < 48<<10:
+		return "4k-48k"
+	case n < 64<<10:
+		return "below64k"
+	case n < 96<<10:
+		return "above64k"
+	}
+	return "big"
+}
+
+// injBuildConfig prepares a configuration through the real API: an optional earlier commit, then the dumps and the
+// file size of the commit the writer will perform.
+func injBuildConfig(root, name string, priorPad int, pad int, stale []byte) (*injConfig, error) {
+	dir := filepath.Join(root, "cfg-"+name)
+	path := filepath.Join(dir, "db.bson")
+	if err := os.MkdirAll(dir, 0777); err != nil {
+		return nil, err
+	}
+	defer os.RemoveAll(dir)
+	cfg := &injConfig{name: name, coll: "c0", stale: stale, pad: pad, commitNo: "first"}
+	if priorPad >= 0 {
+		prior := bson.D{{Key: "_id", Value: int32(100)}, {Key: "pad", Value: strings.Repeat("x", priorPad)}}
+		if cl := insertInProcess(path, "c1", prior); cl != "ok" {
+			return nil, fmt.Errorf("prior commit: %s", cl)
+		}
+		b, err := os.ReadFile(path)
+		if err != nil {
+			return nil, err
+		}
+		cfg.pre = b
+		cfg.commitNo = "later"
+	}
+	var cl string
+	if cfg.dumpOld, cl = loadDump(path); cl != "ok" {
+		return nil, fmt.Errorf("old state: %s", cl)
+	}
+	cfg.doc = bson.D{{Key: "_id", Value: int32(1)}, {Key: "a", Value: "v"}}
+	cfg.full = cfg.doc
+	if pad > 0 {
+		cfg.full = append(append(bson.D{}, cfg.doc...), bson.E{Key: "pad", Value: strings.Repeat("x", pad)})
+	}
+	if cl := insertInProcess(path, cfg.coll, cfg.full); cl != "ok" {
+		return nil, fmt.Errorf("commit: %s", cl)
+	}
+	if cfg.dumpNew, cl = loadDump(path); cl != "ok" {
+		return nil, fmt.Errorf("new state: %s", cl)
+	}
+	st, err := os.Stat(path)
+	if err != nil {
+		return nil, err
+	}
+	cfg.newSize = int(st.Size())
+	cfg.sizeTag = sizeRegime(cfg.newSize)
+	return cfg, nil
+}
+
+// injCorpus: fixed matrix — database sizes below 4 KiB, just below / just above 64 KiB and ~200 KiB, on the first
+// commit (no old file) and on a later one; per configuration the data-path failures (write ENOSPC/EIO/0 bytes, fsync,
+// close, rename) plus a genuine short write (RLIMIT_FSIZE at half the file), and in rotation rename EXDEV, directory
+// open/fsync, unlink of the stale temp, create.
+func injCorpus() []run.Case {
+	root, err := os.MkdirTemp("/tmp", "lungo-c05-inj-")
+	if err != nil {
+		return []run.Case{{Impl: `{"errinj":"mkdtemp"}`, Tags: []string{"setup_failed"}}}
+	}
+	defer os.RemoveAll(root)
+	stale := []byte{0xAA, 0xBB, 0xCC}
+	longStale := bytes.Repeat([]byte{0xA5}, 80<<10)
+	specs := []struct {
+		name     string
+		priorPad int // -1 = first commit
+		pad      int
+		stale    []byte
+	}{
+		{"first-small", -1, 1000, nil},
+		{"later-small", 200, 0, stale},
+		{"first-below64k", -1, 31000, stale},
+		{"later-below64k", 30800, 0, nil},
+		{"first-above64k", -1, 34000, nil},
+		{"later-above64k", 34000, 0, longStale},
+		{"later-big", 100000, 0, nil},
+	}
+	useStrace := straceAvailable()
+	type job struct {
+		cfg *injConfig
+		t   injTarget
+	}
+	var cases []run.Case
+	var jobs []job
+	for ci, sp := range specs {
+		cfg, err := injBuildConfig(root, sp.name, sp.priorPad, sp.pad, sp.stale)
+		if err != nil {
+			cases = append(cases, run.Case{Impl: `{"errinj":"config ` + sp.name + `"}`, Tags: []string{"setup_failed"}})
+			continue
+		}
+		// a genuine short write: RLIMIT_FSIZE at half of the new file (no ptrace needed)
+		jobs = append(jobs, job{cfg, injTarget{class: "writeTmp", sys: "write", when: 1, spec: fmt.Sprintf("fsize=%d", cfg.newSize/2), occurrence: 1}})
+		if !useStrace {
+			jobs = append(jobs, job{cfg, injTarget{class: "writeTmp", sys: "write", when: 1, spec: "fsize=0", occurrence: 1}})
+			continue
+		}
+		// reference trace of this configuration
+		refDir := filepath.Join(root, "ref-"+sp.name)
+		refPath, _ := writeState(refDir, cfg.pre, cfg.stale)
+		docRaw, _ := bson.Marshal(cfg.doc)
+		trace, _, _, err := runStraceEnv(refDir, refPath, cfg.coll, hex.EncodeToString(docRaw), "", cfg.env())
+		lines := parseTrace(trace)
+		_ = os.RemoveAll(refDir)
+		if err != nil || len(lines) == 0 {
+			cases = append(cases, run.Case{Impl: `{"errinj":"reference trace failed"}`, Tags: []string{"errinj_failed"}})
+			continue
+		}
+		rot := 0
+		for _, t := range injCandidates(lines, refPath) {
+			switch {
+			case injDataPath[t.class] && !(t.class == "renameTmpToPath" && t.spec == "error=EXDEV"):
+				// every data-path failure, on the first and (if several writes) every further call of the class
+				jobs = append(jobs, job{cfg, t})
+			case t.class == "closeDir" || (t.class == "removeTmp" && t.occurrence > 1):
+				// ignored by design (deferred calls); exercised by the generated cases
+			default:
+				// rename EXDEV, directory open/fsync, unlink of the stale temp, create: two of them per configuration
+				if (rot+ci)%3 != 2 {
+					jobs = append(jobs, job{cfg, t})
+				}
+				rot++
+			}
+		}
+	}
+	if !useStrace {
+		cases = append(cases, run.Case{Impl: `{"errinj":"ptrace unavailable: RLIMIT_FSIZE scenarios only"}`, Tags: []string{"errinj:ptrace_unavailable"}})
+	}
+	// independent child processes in their own directories: a small pool keeps the corpus quick under load
+	out := make([]run.Case, len(jobs))
+	sem := make(chan struct{}, 4)
+	var wg sync.WaitGroup
+	for i, j := range jobs {
+		wg.Add(1)
+		sem <- struct{}{}
+		go func(i int, j job) {
+			defer wg.Done()
+			defer func() { <-sem }()
+			out[i] = injRun(j.cfg, filepath.Join(root, fmt.Sprintf("j%d", i)), j.t)
+		}(i, j)
+	}
+	wg.Wait()
+	return append(cases, out...)
+}
+
 func init() {
 	run.Register(&run.Stream{
 		Name: "crash",
 		Rule: "histories of 1..3 commits (InsertOne) on a FileStore in a fresh temp dir, with/without a stale .tmp; per commit: strace conformance of a real writer process, " +
 			"SIGKILL at the entry of every traced system call then real Load (+ in-process re-commit), model-enumerated power-loss images for every k then real Load, " +
 			"and a wrapped Store failing (error / error after write / panic) on a chosen call; non-trivial = kill landed inside the commit, image with 1 ≤ k < end, or fault scenario ran; " +
+			"corpus + 2 random picks per generated commit: real-kernel ERROR injection per system call of the commit (strace inject=<syscall>:error=…/retval=0, RLIMIT_FSIZE short writes) " +
+			"for database sizes <4 KiB, just below/above 64 KiB and ~200 KiB on first and later commits, monitors swallowed-error / not-old-or-new / acked-but-old / failed-commit-damaged; " +
 			"corpus: model counterexample search (fs.search: every cut × no/single fault × kill and power-loss images) on the step list regenerated from dbkit/atomic.go, 8 content shapes",
-		Corpus: searchCorpus,
+		Corpus: func() []run.Case { return append(searchCorpus(), injCorpus()...) },
 		Gen: func(r *gen.R, idx int) []run.Case {
 			return crashCase(r, idx)
 		},
